@@ -58,7 +58,10 @@ def configurations(chk):
     if r.violated:
         chk.violation("COpts.tla violates %s" % r.violated, r.trace_text, key={"model": "COpts", "inv": r.violated})
     cfgs = [json.loads(l[7:]) for l in r.printed if isinstance(l, str) and l.startswith("CONFIG ")]
-    product = [c for c in cfgs if c["inscope"] and c["canonical"] and len(c["opts"]) == 4 and c["idlen"] in IDLENS
+    # the product of the statement: one explicit option per group; "lines" means that line numbers really reach the C, which
+    # takes -Zdb as well (emit.c: emitDoLineNos && ccLineNos(); -Clines alone changes nothing)
+    product = [c for c in cfgs if c["inscope"] and c["canonical"] and c["idlen"] in IDLENS and c["debug"] == c["lines"]
+               and len([o for o in c["opts"] if o.startswith("-C")]) == 4
                and not any(o.endswith("=-1") or "idhash" in o for o in c["opts"])]
     if len(product) != 80:
         raise vlib.MachineryError("COpts.tla exported %d configurations of the statement, expected 80" % len(product))
@@ -270,7 +273,7 @@ def scenarios(chk, b, wd, colp, exp, frame, rnd, libs0):
         kind, sig = verdict
         key = {"kind": kind, "sig": sig, "scenario": tag, "opts": list(opts)}
         if evidence:
-            key = {"kind": kind, "cause": evidence, "units": 2}
+            key = {"kind": kind, "cause": evidence, "units": len(res.get("parts", {})) or 1}
         chk.violation("%s in the %s scenario under %s: %s" % (kind, tag, " ".join(opts) or "(default)", sig),
                       {"scenario": tag, "opts": list(opts), "got_out": res["out"][:1500], "got_err": res["err"][:2500], "rc": res["rc"],
                        "phase": res["phase"], "expected_out": exp["out"], "parts": res.get("parts"), "evidence": evidence,
@@ -313,6 +316,25 @@ def scenarios(chk, b, wd, colp, exp, frame, rnd, libs0):
         # C files of the first unit that the compilation of the second unit overwrote
         redone = [f for f in res.get("overwritten", {}).get(ub, []) if f.endswith(".c")]
         judge("unit-names-sharing-5-characters-split", res, opts, "split-part-file-names-collide" if redone else None)
+    # D: functions exported `to Foreign Builtin` (as the run-time support units do): each gets a static closure
+    # tmpClos0_<name> (index always 0, no hash) that points to a static tmp<i>_<name> program structure
+    def foreign(names):
+        text = render.render(colp, names)
+        decl = "export { %s: SI -> SI; %s: SI -> SI } to Foreign Builtin;" % ((names or {}).get("fa", "fa"), (names or {}).get("fb", "fb"))
+        lines = text.split("\n")
+        k = [i for i, l in enumerate(lines) if l.startswith("import from")][0]
+        return "\n".join(lines[:k + 1] + [decl] + lines[k + 1:])
+    longn = {"fa": "exportedFunctionWithLongNameA", "fb": "exportedFunctionWithLongNameB"}
+    for opts, kw, t in (((), {}, "d"), (zero, kw0, "z")):
+        if kw is None:
+            continue
+        res = compile_units(b, os.path.join(wd, "scenD" + t), [("p", foreign(longn), True)], opts, **kw)
+        ev = "static-closure-name-collision" if res["phase"] == "link" and re.search(r"redefinition of .tmpClos0_", res["err"]) else None
+        judge("foreign-builtin-exports-sharing-21-characters", res, opts, ev)
+    for opts, t in ((("-Csmax=1",), "s"), ((), "e")):
+        res = compile_units(b, os.path.join(wd, "scenD" + t), [("p", foreign(None), True)], opts)
+        ev = "split-static-prog-referenced-from-other-part" if res["phase"] == "link" and re.search(r"tmp\d+_\w+. undeclared", res["err"]) else None
+        judge("foreign-builtin-exports-split", res, opts, ev)
     return out
 
 # ---------------------------------------------------------------------------------------------------------------
@@ -329,6 +351,7 @@ def run(chk, tier):
     pool = concurrent.futures.ThreadPoolExecutor(max_workers=8)
     f_names = pool.submit(vlib.tlc, "CNames", "CNames" if quick else "CNamesDeep", workers=8 if quick else vlib.NCPU, timeout=1200)
     f_dist = pool.submit(vlib.tlc, "CNames", "CNamesDistinct", workers=4, timeout=600)
+    f_distnk = pool.submit(vlib.tlc, "CNames", "CNamesDistinctNK", workers=4, timeout=600)
     f_libs = {i: pool.submit(build_libs, b, ("-Cidlen=%d" % i,)) for i in IDLENS if i != 30}
     product, overrides, default_cfg, nmodel_cfgs = configurations(chk)
     chosen = choose_quick(product, rnd, 16) if quick else list(product)
@@ -340,11 +363,13 @@ def run(chk, tier):
     if len(model_rows) < 10:
         raise vlib.MachineryError("CNames.tla exported %d rows" % len(model_rows))
     # the statement itself, in the model: TLC shows the counterexample (hash of the full name is the only separator)
-    r2 = f_dist.result()
-    chk.add_tlc("CNamesDistinct", r2)
-    if r2.violated:
-        chk.violation("CNames.tla: the code as transcribed violates %s (two globals, one C name)" % r2.violated, r2.trace_text,
-                      key={"model": "CNames", "inv": r2.violated})
+    for nm, fut, what in (("CNamesDistinct", f_dist, "two globals, one C name"),
+                          ("CNamesDistinctNK", f_distnk, "two static closures / two unit initialisers, one C name")):
+        r2 = fut.result()
+        chk.add_tlc(nm, r2)
+        if r2.violated:
+            chk.violation("CNames.tla: the code as transcribed violates %s (%s)" % (r2.violated, what), r2.trace_text,
+                          key={"model": "CNames", "inv": r2.violated})
 
     # ---- 2. programs and their behaviours (AldorSem) ---------------------------------------------------------
     nprog = 12 if quick else 44
@@ -436,11 +461,10 @@ def run(chk, tier):
     marks["baseline"] = time.time() - t_start
 
     # ---- 4. libraries with the same limit (the shipped archives only fit the default) -------------------------
-    lib_idlens = sorted(set(c["idlen"] for c in chosen) - {30})
     libs = {}
     lib_extra = []
     if not quick:
-        lib_extra = [("-Cstandard", "-Csmax=50", "-Clines"), ("-Cold", "-Csmax=5", "-Cno-lines"), ("-Cold", "-Csmax=0", "-Clines"),
+        lib_extra = [("-Zdb", "-Cstandard", "-Csmax=50", "-Clines"), ("-Cold", "-Csmax=5", "-Cno-lines"), ("-Zdb", "-Cold", "-Csmax=0", "-Clines"),
                      ("-Cstandard", "-Csmax=1", "-Cno-lines")]
     with concurrent.futures.ThreadPoolExecutor(max_workers=3) as ex:
         futs2 = {o: ex.submit(build_libs, b, o) for o in lib_extra}
@@ -453,8 +477,11 @@ def run(chk, tier):
         lib_files += info["files"]
         chk.case(("library", str(o)), nontrivial=True)
         for (unit, phase, text) in info["failures"]:
+            key = {"kind": "link-fail", "unit": unit, "opts": info["opts"], "where": "library"}
+            if any(o.startswith("-Csmax=") and o != "-Csmax=0" for o in info["opts"]) and re.search(r"tmp\d+_\w+. undeclared", text):
+                key = {"kind": "link-fail", "where": "library", "cause": "split-static-prog-referenced-from-other-part"}
             chk.violation("library unit %s does not compile under %s: %s" % (unit, info["opts"], phase), {"unit": unit, "opts": info["opts"], "text": text},
-                          key={"kind": "link-fail", "unit": unit, "opts": info["opts"], "where": "library"})
+                          key=key)
     marks["libraries"] = time.time() - t_start
     chk.extra["libraries_regenerated"] = {"options": [list(i["opts"]) for i in list(libs.values()) + list(extra_libs.values())], "c_files_compiled": lib_files}
 
@@ -517,7 +544,7 @@ def run(chk, tier):
         d = os.path.join(wd, "ref-%d-%s-%s-%s" % (vi, std, smax, lines))
         os.makedirs(d, exist_ok=True)
         open(os.path.join(d, "p.as"), "w").write(render.render(p, names))
-        opts = ["-Cstandard" if std else "-Cold", "-Cidlen=0", "-Csmax=%d" % smax, "-Clines" if lines else "-Cno-lines"]
+        opts = (["-Zdb"] if lines else []) + ["-Cstandard" if std else "-Cold", "-Cidlen=0", "-Csmax=%d" % smax, "-Clines" if lines else "-Cno-lines"]
         vlib.aldor(b, opts + ["-Fc", "-Fmain", "p.as"], d, timeout=120)
         res = {"dir": d, "cfiles": sorted(os.path.basename(f) for f in glob.glob(os.path.join(d, "*.c"))),
                "hfiles": sorted(os.path.basename(f) for f in glob.glob(os.path.join(d, "*.h")))}
@@ -575,7 +602,7 @@ def run(chk, tier):
                         seen_bind.add(hk)
                         events.append({"ev": "Names", "prog": p["id"], "cfg": label, "binds": binds})
                     for (scope, ent, cname) in binds:
-                        if scope != "link":
+                        if scope not in ("link", "export"):
                             spell_obs[(ent, c["idlen"])] = cname
 
     # ---- 7. spelling against CNames!MangleH (drift only) -----------------------------------------------------
@@ -632,7 +659,9 @@ def run(chk, tier):
         ents = sorted(cf["entities"])
         decs = [cn.decode_ident(e) for e in ents]
         cls = "other"
-        if all(d and d[0] in ("G", "pG") for d in decs):
+        if cf["scope"] == "export":
+            cls = "duplicate-export-link-name"
+        elif all(d and d[0] in ("G", "pG") for d in decs):
             hd = set(re.match(r"^p?G_([0-9A-Z]*)_", e).group(1) for e in ents)
             cls = "global-same-hash-digits-and-truncated-image" if len(hd) == 1 else "global-different-hash-digits"
         conflicts_by_prog.setdefault(cf["prog"], []).append(cf)
@@ -662,7 +691,7 @@ def run(chk, tier):
             vlib.aldor(b, list(opts) + ["-Fc", "-Fmain", "p.as"], d, timeout=120)
             return {os.path.basename(f): open(f, errors="replace").read() for f in sorted(glob.glob(os.path.join(d, "*.[ch]")))}
         for k, oc in enumerate(ovs):
-            canon = ["-Cstandard" if oc["std"] else "-Cold", "-Cidlen=%d" % oc["idlen"], "-Csmax=%d" % oc["smax"],
+            canon = (["-Zdb"] if oc["debug"] else []) + ["-Cstandard" if oc["std"] else "-Cold", "-Cidlen=%d" % oc["idlen"], "-Csmax=%d" % oc["smax"],
                      "-Clines" if oc["lines"] else "-Cno-lines", "-Cidhash" if oc["idhash"] else "-Cno-idhash"]
             a, bb = emit(oc["opts"], "%da" % k), emit(canon, "%db" % k)
             chk.case(("option-sequence", " ".join(oc["opts"])), nontrivial=True)
@@ -732,5 +761,37 @@ def replay(d):
 
 
 SELFTEST_NOTES = """
-(filled in after the mutation runs)
+Binding demonstration (2026-10-04, scratch worktree /tmp/wt-c16 of /repo, VERIF_SRC=<worktree>/aldor/aldor/src,
+`bin/verif check C16 --tier quick`; every mutant compiles; worktree removed afterwards).
+
+caught (exit 1, VIOLATION lines):
+  M1  genc.c l.709   `nBrothers += 1;` removed (all parts of a split unit get the same INIT__<k>_ function)
+                     -> link-fail under every configuration with -Csmax > 0 (multiple definition of INIT__0_p)
+  M2  genc.c l.480   gc0UnderIdLen: `gcvIdLen == 0 ||` removed (limit 0 treated as a limit of zero characters)
+                     -> the axllib units regenerated with -Cidlen=0 do not compile; all -Cidlen=0 runs fail
+  M3  emit.c l.1201  part file number `nf = (i > 1) ? i-1 : i` -> `(i > 2) ? i-2 : i` (two parts written to one file)
+                     -> link-fail under -Csmax > 0 (undefined references to the lost part)
+  M4  ccode.c l.727  old-style parameter declaration loses its `;`  -> link-fail under every -Cold configuration
+  M6  genc.c gc0MultVarId: `bufPuti(buf, id)` dropped (no index in the names of constants/locals/lexicals)
+                     -> `duplicate member X__LT__LT_` ...: link-fail already under the default options
+  M7b ccode.c l.1018 the newline before `#line %d` dropped -> link-fail under every configuration with line numbers
+                     (-Zdb -Clines).  The first try (M7, before -Zdb was part of the configurations) was MISSED: it showed that
+                     -Clines alone changes nothing (emit.c: emitDoLineNos && ccLineNos()), so COpts.tla got the -Zdb action.
+  M8b genc.c gc0IdHashInBuf: `% VAR_HASH` -> `% 1296` -> the names of the run-time interface no longer match the shipped
+                     libraries: "13 of 13 programs do not show the specified behaviour under the DEFAULT C options"
+missed:
+  M5  emit.c l.1224  closing quote of the first `#line 1 "p.as"` dropped: gcc only warns (-w), the C is accepted and behaves.
+  (M8, first try: exit 2 -- the TLC metadir under /tmp vanished during the run; repeated as M8b.)
+
+corrupted record: VERIF_C16_CORRUPT=1 rewrites one field of one recorded Names event (the C name of one extern entity
+  becomes that of another) before TLC reads the trace -> TraceCNames exports the CONFLICT, exit 1
+  ("two distinct entities get the C name C0_p (extern scope) ...").
+
+unchanged tree: held (exit 0, seven KNOWN-FINDING lines) with VERIF_SEED = default, 11 and 977.
+
+candidate patches tried with VERIF_SRC=/tmp/wt-c16fix: hooks/fix-C16-link-names-independent-of-idlen.diff makes all shipped-route
+  runs conform (0 of 66 bad; the finding `library-global-names-depend-on-idlen` disappears); hooks/fix-C16-split-part-file-names.diff
+  makes the scenario `unit-names-sharing-5-characters-split` conform.  With the first patch -Cidlen=0 no longer spells globals in
+  full, so CNames!MangleH reports spelling drift (150 items) and the crafted-pair probe finds no frame: if that patch is applied,
+  MangleH must get the same cap (the export-call scope of TraceCNames keeps detecting duplicate link names without it).
 """
